@@ -252,17 +252,33 @@ func checkTemplate(c *Ctx, r *Report, format string, ti tmplInfo, spec map[strin
 					detail += "; optional line is (also) emitted unconditionally"
 				}
 			}
+			// no foreign field decides what the line says: every field tested
+			// around it is one the line is fed from
+			if ok {
+				var foreign []string
+				for f := range guards[l] {
+					if !g[f] {
+						foreign = append(foreign, f)
+					}
+				}
+				sort.Strings(foreign)
+				if len(foreign) > 0 {
+					ok = false
+					detail += fmt.Sprintf("; what the line states also depends on %v, which is not one of its own fields", foreign)
+				}
+			}
 			r.Check(ok, "F3", construct, pos, detail)
 		}
 	}
 }
 
 func checkC02(c *Ctx, r *Report) {
-	r.Rules = []string{"F3 template wiring (deb, ipk, apk)", "F4 rpm metadata wiring", "F5 archlinux key/value wiring", "F5b deb triggers / changelog extras", "D3 GOARCH tables vs documentation, override precedence", "F6 version slot depends on every configured component", "ipk reserved field names", "F5b-text rpm changelog text is the rendered notes (TrimSpace only)", "F3-funcs template helper functions write through none of their list arguments", "F6-parsed no branch on the value of a parsed epoch/release", "F3-text the description meets only white-space trimming and line-separator operations", "F4-verbatim rpm relation items reach the relation parser as configured", "arch-W3-idempotent architecture tables are chain-free (imported from C11)", "F5b-each each deb trigger list alone still yields a triggers file (by evaluation)", "wired-F15-self relation lists are expanded from themselves (imported from C16)"}
+	r.Rules = []string{"F3 template wiring (deb, ipk, apk)", "F4 rpm metadata wiring", "F5 archlinux key/value wiring", "F5b deb triggers / changelog extras", "D3 GOARCH tables vs documentation, override precedence", "F6 version slot depends on every configured component", "ipk reserved field names", "F5b-text rpm changelog text is the rendered notes (TrimSpace only)", "F3-funcs template helper functions write through none of their list arguments", "F6-parsed no branch on the value of a parsed epoch/release", "F3-text the description meets only white-space trimming and line-separator operations", "F4-verbatim rpm relation items reach the relation parser as configured", "arch-W3-idempotent architecture tables are chain-free (imported from C11)", "F5b-each each deb trigger list alone still yields a triggers file (by evaluation)", "wired-F15-self relation lists are expanded from themselves (imported from C16)", "F3 (extended) no field outside a line's own fields decides what the line states"}
 	r.Explanation = "Wiring of control metadata decided from source. (F3) the deb, ipk and apk control templates — the string constants reaching Template.Parse — are parsed with text/template/parse (never executed) and flattened to label -> fields printed and fields guarding; each label must be fed from exactly the configuration field(s) the statement pairs it with (all relation kinds, identity fields, format extras), optional labels guarded by their own field. (F4) every field of the rpmpack.RPMMetaData literal and (F5) every key of the archlinux key/value writer must derive (field provenance over go/ssa) from exactly its configuration field(s). (F5b) deb trigger directives pair with the like-named trigger lists, the triggers member is written only when non-empty, changelog entries only behind a non-empty changelog setting. (D3) the five GOARCH tables are extracted from the package initialisers and every row of www/docs/goarch-to-pkg.md must hold in code; with a format-specific architecture configured the stored architecture is that value verbatim (abstract evaluation). (F6) with each version component in turn fixed non-empty, the string reaching the rpm Version field, the apk pkgver and the archlinux pkgver must depend on it on every live path. Rendering of concrete text (multi-line descriptions, escaping) is not decided."
 	r.Explanation += " (F5b-text) between the rendered changelog notes and rpm's changelog-text tag only strings.TrimSpace may sit. (F3-funcs) functions registered in the control templates' FuncMaps write through none of their list arguments. (F6-parsed) no branch depends on the value of an epoch/release parsed as an integer."
 	r.Explanation += " (F3-text) in every description helper of a control template, and wherever Info.Description is handed to a library function, only white-space trimming and split/join/replace at constant line separators occur - word-level rewriting changes the synopsis. (F4-verbatim) the string handed to rpmpack's relation parser is a load of a list element, through conversions and phis only. (arch-W3-idempotent) the architecture tables are applied by the file-name function and again by Package: a table with a chain a->b->c states c for a configured a."
 	r.Explanation += " (F5b-each) the trigger renderer evaluated with exactly one of the six lists non-empty never returns the nil constant on all live returns. (wired-F15-self) imported from C16."
+	r.Explanation += " F3 also requires that every field tested around a line is one of the fields the line is fed from."
 	r.Assumptions = []string{
 		"text/template renders an action with the value of the field chain it names; join/multiline/nonEmpty helpers are not analysed for arbitrary text",
 		"rpmpack writes each RPMMetaData field under its like-named header tag",
